@@ -49,6 +49,9 @@ func (o Op) String() string {
 type Bucket struct {
 	Inner *objstore.InMemBucket
 	Label string
+	// LexOrder lists directory entries in plain lexicographic order (as S3, GCS and the filesystem
+	// provider do) instead of the in-memory bucket's "objects before directories".
+	LexOrder bool
 
 	mu    sync.Mutex
 	sim   *simkit.Sim
@@ -327,6 +330,9 @@ func (h *Handle) Iter(ctx context.Context, dir string, f func(string) error, opt
 	if err = h.end(oc, err, false); err != nil {
 		return err
 	}
+	if h.B.LexOrder {
+		sort.Strings(names)
+	}
 	for _, n := range names {
 		if h.Crashed() {
 			return ErrCrashed
@@ -347,6 +353,9 @@ func (h *Handle) IterWithAttributes(ctx context.Context, dir string, f func(objs
 	err := h.B.Inner.IterWithAttributes(ctx, dir, func(a objstore.IterObjectAttributes) error { attrs = append(attrs, a); return nil }, options...)
 	if err = h.end(oc, err, false); err != nil {
 		return err
+	}
+	if h.B.LexOrder {
+		sort.Slice(attrs, func(i, j int) bool { return attrs[i].Name < attrs[j].Name })
 	}
 	for _, a := range attrs {
 		if h.Crashed() {
